@@ -1,5 +1,5 @@
 CONSTANTS
-  MaxW = 3
+  MaxW = 4
   MaxJ = 4
   MaxSplit = 3
   MaxPieces = 4
